@@ -209,7 +209,7 @@ Proof.
 Qed.
 
 Lemma node_ids_length k n : length (node_ids k n) = fields k.
-Proof. unfold node_ids, fields. destruct (has_key k), (has_val k), (key_first k); reflexivity. Qed.
+Proof. unfold node_ids, fields, stored_fields. destruct (has_key k), (has_val k), (key_first k); reflexivity. Qed.
 Lemma items_ids_length k l : length (items_ids k l) = fields k * length l.
 Proof.
   unfold items_ids. induction l as [|n r IH]; cbn [flat_map length]; [lia|].
@@ -238,6 +238,12 @@ Proof.
   rewrite L. apply ids_count. exact S.
 Qed.
 
+Lemma slive_split s : slive s = sbase s + sstored s.
+Proof.
+  unfold slive, sbase, sstored. induction s as [|v t IH]; cbn [fold_right]; [reflexivity|].
+  rewrite IH. destruct v as [[k l]|]; cbn [slive_var sbase_var sstored_var]; unfold fields; lia.
+Qed.
+
 Lemma run_sent ops : forall st st', SentOk st -> run st ops = Ok st' -> SentOk st'.
 Proof.
   induction ops as [|o r IH]; intros st st' S E; cbn [run] in E.
@@ -256,3 +262,9 @@ Proof.
   intros E. destruct (run_init_ok nv ops) as (st0 & E0 & IV & _). rewrite E in E0. inversion E0. subst st0.
   apply live_count; [exact IV | eapply run_sent; [apply sent_init | exact E]].
 Qed.
+
+(* ... of which the contents account for one per stored element / key (the spec's count), the rest
+   being what the containers keep for themselves *)
+Lemma stored_count_proof nv ops st : run (init nv) ops = Ok st ->
+  length (heap (sw st)) = sbase (abs st) + sstored (abs st).
+Proof. intros E. rewrite (live_count_proof nv ops st E). apply slive_split. Qed.
